@@ -298,6 +298,10 @@ class JsonRoundTrip(Contract):
             out.append(dict(what="function", cls=cls, kw=tuple(sorted(kw.items(), key=str))))
         for n in (1, 2, 3):
             out.append(dict(what="solution", cls="SchedulingSolution", kw=(("n", n),)))
+        # calendar times (a time step of 8 hours: offsets beyond one day; with and without an origin) and a buffer
+        out.append(dict(what="solution", cls="SchedulingSolution", kw=(("cal", "delta"), ("n", 3))))
+        out.append(dict(what="solution", cls="SchedulingSolution", kw=(("cal", "delta+start"), ("n", 3))))
+        out.append(dict(what="solution", cls="SchedulingSolution", kw=(("buffer", True), ("n", 2))))
         return out
 
     def scenario(self, ps, P, case):
@@ -316,12 +320,22 @@ class JsonRoundTrip(Contract):
             back = getattr(ps, case["cls"]).model_validate_json(js)
             return dict(obj=obj, back=back, kw=kw, js=json.loads(js))
         n = kw["n"]
+        if kw.get("cal"):
+            import datetime
+
+            pb = ps.SchedulingProblem(name="pb", horizon=30, delta_time=datetime.timedelta(hours=8), **({"start_time": datetime.datetime(2024, 2, 27, 22, 0)} if kw["cal"] == "delta+start" else {}))
         w = ps.Worker(name="w")
         ts = []
         for i in range(n):
             t = ps.FixedDurationTask(name=f"t{i}", duration=i + 1, optional=(i == 1))
             t.add_required_resource(w)
             ts.append(t)
+        if kw.get("cal"):
+            ps.TaskStartAt(task=ts[-1], value=4)  # more than a day after the origin
+        if kw.get("buffer"):
+            b = ps.NonConcurrentBuffer(name="b", initial_level=5)
+            ps.TaskUnloadBuffer(task=ts[0], buffer=b, quantity=2)
+            ps.TaskLoadBuffer(task=ts[0], buffer=b, quantity=3)
         ps.IndicatorResourceUtilization(resource=w)
         import io, contextlib
 
@@ -346,4 +360,22 @@ class JsonRoundTrip(Contract):
             for n, r in sol.resources.items():
                 ok = ok and [tuple(a) for a in js["resources"][n]["assignments"]] == [tuple(a) for a in r.assignments]
             ok = ok and js["indicators"] == sol.indicators
+            for n, b in sol.buffers.items():
+                ok = ok and js["buffers"][n]["level"] == list(b.level) and js["buffers"][n]["level_change_times"] == list(b.level_change_times)
+            # calendar fields: what is exported reads back (with pydantic's own parsers) as the reported value
+            import datetime
+            from pydantic import TypeAdapter
+
+            for n, t in sol.tasks.items():
+                j = js["tasks"][n]
+                for f in ("start_time", "end_time", "duration_time"):
+                    v = getattr(t, f)
+                    if v is None:
+                        ok = ok and j.get(f) is None
+                        continue
+                    try:
+                        back = TypeAdapter(type(v) if isinstance(v, (datetime.datetime, datetime.timedelta)) else object).validate_python(j[f])
+                    except Exception:  # noqa
+                        back = None
+                    ok = ok and back == v
         return [Clause("native[the JSON export carries the reported values]", z3.BoolVal(bool(ok)), props=("C16",), kind="equals", bounded=self.bounded)]
